@@ -91,7 +91,7 @@ PROPS = {
           "(dblock, eblock, each entry, heights excluded) and every SQL call (begin/exec/query/prepared exec+query/commit, on the block's sql.Tx and on the pool). Each enumerated site is then "
           "failed once (upstream: transport error / HTTP 500 / JSON-RPC error / truncated body by ordinal; SQL: generic error or SQLITE_BUSY), the daemon is restarted if it exits, and it must "
           "reach the tip with a ledger dump equal to the fault-free run. quick: 90 sites per chain, stratified by call site (the four innermost pegnetd functions of the recording run's stack) x upstream request kind / SQL operation + statement text "
-          "(so every distinct statement at every distinct call site of the block pipeline gets a fault, classes in a drawn order); thorough: ALL sites of each chain up to 2,500 (counter chains_enumerated_exhaustively; longer legacy chains by the same stratified sample) plus 40 random pairs. "
+          "(so every distinct statement at every distinct call site of the block pipeline gets a fault, classes in a drawn order); thorough: ALL sites of each short chain up to 1,800 (counter chains_enumerated_exhaustively), 500 stratified sites of each long chain (timeline, bank era, staking), plus 40 random pairs. "
           "Non-trivial = every fired site (all belong to blocks with ledger effects or to the retry path); distinct by (chain, layer, ordinal, statement).",
           quick=(8, 1), thorough=(16, 1), timeout=(900, 3300), shrinktime="20s"),
  "C02": P("TestC02", "fault_enumeration",
